@@ -3,15 +3,16 @@
   `table` maps a registered function name to its model; a registered name with no entry
   here is reported by the evaluator as `Value.other "unmodelled-builtin"`.
 -/
-import HotXL.Model.Basic
-import HotXL.Model.Operators
+import HotXL.Model.Fn.Common
 
 namespace HotXL.Fn.Math
 open HotXL
 
-/-- a builtin: evaluated arguments to a value, or a raised Python exception (as its error code) -/
-abbrev Builtin := List Value → Except Err Value
+open HotXL.Fn
 
-def table : List (String × Builtin) := []
+/-- SUM(*args) = sum(inumbers(args, try_parse=True)) -/
+def SUM : Builtin := fun args => (inumbers true false args).map (fun xs => .num (pySum xs))
+
+def table : List (String × Builtin) := [("SUM", SUM)]
 
 end HotXL.Fn.Math
